@@ -303,7 +303,7 @@ pub fn c18(args: &Args) -> i32 {
 // ---------------------------------------------------------------------------
 // C19 (sequential leg): consistent reads of the incremental arrangements mirror the base relation
 
-const C19_OPS: [&str; 8] = ["ins a", "ins b", "ins [a,a]", "ins [a,b]", "del a", "del b", "del [a,b]", "del absent"];
+const C19_OPS: [&str; 9] = ["ins a", "ins b", "ins [a,a]", "ins [a,b]", "del a", "del b", "del [a,b]", "del absent", "del [a,a]"];
 
 fn ta() -> Tuple {
     Tuple::new(vec![Value::Int64(1), Value::Int64(2)])
@@ -339,6 +339,7 @@ fn c19_one(h: &[usize], enable_at: usize) -> Option<(String, String)> {
             4 => s.delete_tuples_from(KG, "r", vec![ta()]).map(|_| ()),
             5 => s.delete_tuples_from(KG, "r", vec![tb()]).map(|_| ()),
             6 => s.delete_tuples_from(KG, "r", vec![ta(), tb()]).map(|_| ()),
+            8 => s.delete_tuples_from(KG, "r", vec![ta(), ta()]).map(|_| ()),
             _ => s.delete_tuples_from(KG, "r", vec![tc()]).map(|_| ()),
         };
         if let Err(e) = r {
@@ -355,7 +356,7 @@ fn c19_one(h: &[usize], enable_at: usize) -> Option<(String, String)> {
                 model.insert(key(&ta()));
                 model.insert(key(&tb()));
             }
-            4 => {
+            4 | 8 => {
                 model.remove(&key(&ta()));
             }
             5 => {
@@ -408,7 +409,7 @@ pub fn c19(args: &Args) -> i32 {
     }
     let run = Run::new(args, "model_checking", 55.0, 1500.0);
     let depth = if run.quick() { 4 } else { 5 };
-    run.set_rule("sequential leg: all histories up to the depth bound over {ins a, ins b, ins [a,a], ins [a,b], del a, del b, del [a,b], del absent} through StorageEngine::insert_tuples_into / delete_tuples_from on one KG, incremental maintenance enabled just before step k for every k (replay of existing data included); after every later step IncrementalEngine::read_relation_consistent must return exactly the set model of the relation, without duplicates. non-trivial = (history, k) with at least one write after enabling; states = distinct (model, depth). E4 leg: see `interleavings` in the coverage block");
+    run.set_rule("sequential leg: all histories up to the depth bound over {ins a, ins b, ins [a,a], ins [a,b], del a, del b, del [a,b], del absent, del [a,a]} through StorageEngine::insert_tuples_into / delete_tuples_from on one KG, incremental maintenance enabled just before step k for every k (replay of existing data included); after every later step IncrementalEngine::read_relation_consistent must return exactly the set model of the relation, without duplicates. non-trivial = (history, k) with at least one write after enabling; states = distinct (model, depth). E4 leg: see `interleavings` in the coverage block");
     let mut cases: Vec<(Vec<usize>, usize)> = vec![];
     let mut level: Vec<Vec<usize>> = vec![vec![]];
     for _ in 0..depth {
